@@ -57,6 +57,9 @@ class Inconclusive(Exception):
     pass
 
 
+ON_STUCK = None   # investigation hook: called (in the waiting thread) when an operation does not finish
+
+
 class Pipe(object):
     def __init__(self):
         self.i2t = queue.Queue()
@@ -165,6 +168,8 @@ def with_limit(fn):
     th.start()
     th.join(2 * LIMIT)
     if th.is_alive():
+        if ON_STUCK:
+            ON_STUCK()
         raise Inconclusive('operation did not finish')
     if 'e' in box:
         raise box['e']
